@@ -214,10 +214,18 @@ func equal(lhsV, rhsV reflect.Value) bool {
 	if (!lhsIsNil && rhsIsNil) || (lhsIsNil && !rhsIsNil) {
 		return false
 	}
-	if lhsV.Kind() == reflect.Interface || lhsV.Kind() == reflect.Ptr {
+	// what is compared is the value held: an interface slot is opened first, then a pointer is followed, so
+	// that a pointer read from a list element compares like the same pointer held in a variable
+	if lhsV.Kind() == reflect.Interface {
 		lhsV = lhsV.Elem()
 	}
-	if rhsV.Kind() == reflect.Interface || rhsV.Kind() == reflect.Ptr {
+	if lhsV.Kind() == reflect.Ptr && !lhsV.IsNil() {
+		lhsV = lhsV.Elem()
+	}
+	if rhsV.Kind() == reflect.Interface {
+		rhsV = rhsV.Elem()
+	}
+	if rhsV.Kind() == reflect.Ptr && !rhsV.IsNil() {
 		rhsV = rhsV.Elem()
 	}
 
